@@ -139,6 +139,8 @@ def tamper_oracle(ix: Index, scn: dict) -> list[Violation]:
                     out.append(Violation("error-class", f"{scn.get('deviation')}:op:{op.err['cls']}", f"deviation {scn.get('deviation')}: connect raised {op.err['cls']}: {op.err['text'][:80]!r}, want {want}"))
             if scn.get("nothing_written") and any(ix.tr_writes.values()):
                 out.append(Violation("written-before-reject", "", "bytes were written although the configured key is invalid"))
+            if scn.get("nothing_written") and ix.audit is not None and (ix.audit.get("open_socks") or any(cd.get("state") not in ("CLOSED", "INITIALIZED") for cd in ix.audit.get("conns", []))):
+                out.append(Violation("not-closed", "bad_psk", f"after the key was refused the attempt is not over: open sockets {ix.audit.get('open_socks')}, connection states {[cd.get('state') for cd in ix.audit.get('conns', [])]}"))
             if got:
                 out.append(Violation("delivered-past-deviation", scn.get("deviation", "?"), "packets delivered despite a handshake-phase deviation"))
     return out
